@@ -175,6 +175,35 @@ MUTANTS = {
         mut("guard-other-date", "lots of all dates counted", [(M, "            .map(|l| l.remaining_for_date(tx.date))", "            .map(|l| l.lots().iter().map(|x| x.available()).sum())")], ["R1:guard:ledger-operand"]),
         mut("guard-after-sameday", "check after same-day matching", [(M, "        let mut remaining = *amount;\n\n        // 1. Same Day matching\n        let same_day_matched =\n            same_day::match_same_day(self, tx, &mut remaining, all_transactions)?;\n        for m in same_day_matched {\n            self.matches.push(m);\n        }\n", "        let mut remaining = *amount;\n"), (M, "        // Pre-cascade holding check: you must hold shares to dispose of them.", "        let mut remaining0 = *amount;\n        let same_day_matched =\n            same_day::match_same_day(self, tx, &mut remaining0, all_transactions)?;\n        for m in same_day_matched {\n            self.matches.push(m);\n        }\n        // Pre-cascade holding check: you must hold shares to dispose of them.")], ["R1:guard-dominates:SameDay", "R1:cascade"]),
         mut("error-without-date", "error omits the date", [(M, "                    \"SELL {} on {} has no prior acquisitions (attempted to dispose {})\",\n                    tx.ticker, tx.date, amount", "                    \"SELL {} has no prior acquisitions (attempted to dispose {} / {})\",\n                    tx.ticker, amount, amount")], ["R4:error-text"]),
+        mut("neutral-guard-helper", "holding computation extracted into a helper", [
+            (M, """        let ledger_held = self
+            .ledgers
+            .get(&tx.ticker)
+            .map(|l| l.remaining_for_date(tx.date))
+            .unwrap_or(Decimal::ZERO);
+        let pool_held = self
+            .pools
+            .get(&tx.ticker)
+            .map(|p| p.quantity)
+            .unwrap_or(Decimal::ZERO);
+""", """        let (ledger_held, pool_held) = self.held_for(tx);
+"""),
+            (M, "    /// Move remaining shares from a buy to the Section 104 pool.", """    fn held_for(&self, tx: &GbpTransaction) -> (Decimal, Decimal) {
+        let in_ledger = self
+            .ledgers
+            .get(&tx.ticker)
+            .map(|l| l.remaining_for_date(tx.date))
+            .unwrap_or(Decimal::ZERO);
+        let in_pool = self
+            .pools
+            .get(&tx.ticker)
+            .map(|p| p.quantity)
+            .unwrap_or(Decimal::ZERO);
+        (in_ledger, in_pool)
+    }
+
+    /// Move remaining shares from a buy to the Section 104 pool."""),
+        ], neutral=True),
         mut("mcp-output-before-calc", "MCP builds a success before the calculation result is checked", [(SERVER, "        let report = self.do_calculate_report(&req.transactions, req.year)?;\n        let response = serde_json::json!({", "        let report = match self.do_calculate_report(&req.transactions, req.year) {\n            Ok(r) => r,\n            Err(_) => return Ok(CallToolResult::success(vec![Content::text(\"{}\".to_string())])),\n        };\n        let response = serde_json::json!({")], ["R2:"]),
     ],
     "C06": [
@@ -280,6 +309,7 @@ MUTANTS = {
         mut("comparator-ticker-first", "shared comparator: ticker before date", [("crates/cgt-core/src/ordering.rs", "    left_date\n        .cmp(&right_date)\n        .then_with(|| left_ticker.cmp(right_ticker))", "    left_ticker\n        .cmp(right_ticker)\n        .then_with(|| left_date.cmp(&right_date))")], ["R3:"]),
         mut("clock-in-plain", "timestamp in the text report", [(PLAIN, "    let _ = writeln!(out, \"# SUMMARY\\n\");", "    let _ = writeln!(out, \"# SUMMARY {:?}\\n\", std::time::SystemTime::now());")], ["R2:"]),
         mut("echo-unsorted", "transaction echo in input order", [(PLAIN, "    sort_by_date_ticker(\n        &mut txns,\n        |transaction| transaction.date,\n        |transaction| &transaction.ticker,\n    );\n", "")], ["R4:"]),
+        mut("neutral-holdings-sort-by-key", "holdings sorted with sort_by_key", [(CALC, "    holdings.sort_by(|a, b| a.ticker.cmp(&b.ticker));", "    holdings.sort_by_key(|h| h.ticker.clone());")], neutral=True),
         mut("neutral-btreemap-disposals", "BTreeMap for the disposal grouping", [(CALC, "    let mut disposal_map: HashMap<(NaiveDate, String), Vec<MatchResult>> = HashMap::new();", "    let mut disposal_map: BTreeMap<(NaiveDate, String), Vec<MatchResult>> = BTreeMap::new();")], neutral=True),
     ],
     "C17": [
